@@ -20,7 +20,7 @@ Extraction "extracted/model.ml"
   init_pstate pstep feed deliver deliver_all well_known
   encode ete to_string of_bytes parse_element
   vt_bytes vt_resize vt0_clean vt0_junk adopt_keep adopt_corner adopt_home
-  oracle_run wf_op_b wf_elem wf_title displayable
+  oracle_run oracle_step wf_op_b wf_elem wf_title displayable
   digit10 digit16 mstep
   enc tok wf_item adjacency_ok enc_all
   show_stream
